@@ -6,6 +6,7 @@ package interp
 
 import (
 	"go/token"
+	"strings"
 	"go/types"
 
 	"verif/engine/sym"
@@ -45,6 +46,31 @@ func (i *interpreter) lastIndexSym(s, sep symStr) int {
 		}
 	}
 	return -1
+}
+
+const numberAlphabet = "0123456789abcdefghijklmnopqrstuvwxyzABCDEFGHIJKLMNOPQRSTUVWXYZ+-."
+
+func isOpaque(v value) bool { _, ok := v.(opaque); return ok }
+
+// outsideNumberAlphabet: byte b (concrete, or symbolic with a known domain)
+// cannot be a character of a formatted number.
+func (i *interpreter) outsideNumberAlphabet(b value) bool {
+	switch b := b.(type) {
+	case uint8:
+		return strings.IndexByte(numberAlphabet, b) < 0
+	case symVal:
+		alpha, ok := i.w.domains[b.t]
+		if !ok {
+			return false
+		}
+		for k := 0; k < len(alpha); k++ {
+			if strings.IndexByte(numberAlphabet, alpha[k]) >= 0 {
+				return false
+			}
+		}
+		return true
+	}
+	return false
 }
 
 func checkNoOpaque(what string, vs ...value) {
@@ -112,9 +138,37 @@ func init() {
 	S("strings.LastIndex", func(i *interpreter, a []value) value {
 		return i.lastIndexSym(toSymStr(a[0]), toSymStr(a[1]))
 	})
-	S("strings.Contains", func(i *interpreter, a []value) value {
-		return i.indexSym(toSymStr(a[0]), toSymStr(a[1]), 0) >= 0
-	})
+	summaries["strings.Contains"] = func(fr *frame, a []value) value {
+		i := fr.i
+		s, sep := toSymStr(a[0]), toSymStr(a[1])
+		if sep.hasOpaque() {
+			panic(unsupported{"strings.Contains with a needle containing a formatted symbolic number"})
+		}
+		if !s.hasOpaque() {
+			return i.indexSym(s, sep, 0) >= 0
+		}
+		// The haystack contains formatted symbolic numbers (text over [0-9a-zA-Z+-.] of unknown
+		// length). If no byte of the needle can be in that alphabet, a match lies entirely
+		// inside one of the segments between those pieces.
+		for _, b := range sep.b {
+			if !i.outsideNumberAlphabet(b) {
+				panic(unsupported{"strings.Contains on a string containing a formatted symbolic number"})
+			}
+		}
+		if len(sep.b) == 0 {
+			return true
+		}
+		start := 0
+		for p := 0; p <= len(s.b); p++ {
+			if p == len(s.b) || isOpaque(s.b[p]) {
+				if i.indexSym(symStr{s.b[start:p:p]}, sep, 0) >= 0 {
+					return true
+				}
+				start = p + 1
+			}
+		}
+		return false
+	}
 	idxByte := func(i *interpreter, a []value) value {
 		s := toSymStr(a[0])
 		for p, b := range s.b {
